@@ -1210,6 +1210,13 @@ mod builtins {
         };
         ok!(args.assert_all_used());
         if let Some(indent) = indent {
+            // the indentation is materialized, so the width is an allocation size
+            if indent > 100000 {
+                return Err(Error::new(
+                    ErrorKind::InvalidOperation,
+                    "indentation width is too large",
+                ));
+            }
             let indentation = " ".repeat(indent);
             serialize_json(
                 value,
@@ -1291,6 +1298,13 @@ mod builtins {
         };
         ok!(kwargs.assert_all_used());
 
+        // the indentation is materialized, so the width is an allocation size
+        if width > 100000 {
+            return Err(Error::new(
+                ErrorKind::InvalidOperation,
+                "indentation width is too large",
+            ));
+        }
         let input = strip_trailing_newline(value.as_str());
         let indent_with = " ".repeat(width);
         let mut output = String::new();
